@@ -8,11 +8,23 @@ def codec_nontrivial(tok, res):
         return True
     if tok[0] in ("rd", "into"):
         return not res.startswith("msg:ReqWorkConn")
-    return tok[0] in ("first", "later", "gold")
+    if tok[0] == "disp":            # the dispatcher decided something: a handler call or the end of the session
+        return " C[] alive" not in res
+    if tok[0] == "lane":            # a message reached a waiting Do call
+        return "t>" in res
+    return tok[0] in ("first", "later", "gold", "sess", "nh")
 
 
 def codec_class(r):
     w = r.split(" ")
+    if r.startswith("P"):            # nh: outcome, eq
+        return "nh:" + " ".join(w[2:4])
+    if r[:1] in ("r", "f", "c") and (len(w[0]) == 1 or w[0].startswith(("c:", "t>"))):   # lane
+        return "lane:" + ("deliv" if "t>" in r else "nodeliv")
+    if r.startswith("T["):           # disp: state / calls? / after-close ; sess: replies, closed?, alive?
+        if len(w) > 1 and w[1].startswith("C["):
+            return "%s:%s:%s" % (w[2].split("@")[0], "calls" if len(w[1]) > 3 else "nocall", w[3])
+        return " ".join(x.split("=")[0] + ("=" + str(x.count("Pong")) if "=" in x else "") for x in w[1:])
     if r.startswith("B"):            # rt: outcome + eq flag
         return "rt:" + (w[2].split(":")[0] + ":" + w[2].split(":")[1] if w[2].startswith("err") else "msg") + ":" + w[5] + (":obj" if len(w) > 6 and w[6] != "O-" else "")
     if w[0].startswith("msg:"):
@@ -38,7 +50,30 @@ PROP = {
             "Frp.C17.fromObj_toObj", "Frp.C17.fromObj_toObj_exact",
             # the decoder before the fix 5c99d8a (documentation of finding C17-null-body)
             "Frp.C17.model_null_witness", "Frp.C17.golibHoldsFull_false", "Frp.C17.golib_holdsOn_partial",
+            # session level (Model/Dispatcher, Props/C17Dispatch): one ReadMsg with the JSON type check modelled
+            "Frp.C17.readStep_good", "Frp.C17.readStep_bad_body", "Frp.C17.readStep_unknown_type",
+            "Frp.C17.readStep_negative", "Frp.C17.readStep_oversize", "Frp.C17.readStep_msg_sound",
+            # reasons for which a body is an error (syntax, top level, FIELD level incl. nested / elements / range)
+            "Frp.C17.bodyOk_syntax", "Frp.C17.bodyOk_toplevel", "Frp.C17.membersFit_bad_member",
+            "Frp.C17.bodyOk_bad_field", "Frp.C17.fitsF_wrong_type", "Frp.C17.fitsF_real",
+            "Frp.C17.fitsF_out_of_range", "Frp.C17.fitsF_bad_element", "Frp.C17.fitsF_bad_map_value",
+            "Frp.C17.fitsF_bad_nested",
+            # the read loop for all handler tables and all byte streams
+            "Frp.C17.readLoop_goods", "Frp.C17.reject_ends_session", "Frp.C17.nothing_after_done",
+            "Frp.C17.wellformed_keeps_session", "Frp.C17.peer_close_ends_session", "Frp.C17.deliveries_target",
+            "Frp.C17.stream_decomposition",
+            # independence of how the peer's bytes are cut into writes
+            "Frp.C17.decodeFull_err_stable", "Frp.C17.readStep_msg_stable", "Frp.C17.readStep_reject_stable",
+            "Frp.C17.readLoop_fuel", "Frp.C17.readLoop_append", "Frp.C17.recv_append",
+            # executable predicate of the driver; send side; table facts
+            "Frp.C17.dispHoldsOn_sound", "Frp.C17.model_dispHolds", "Frp.C17.send_fifo", "Frp.C17.send_outcomes",
+            "Frp.C17.schema_names_lowercase", "Frp.C17.schema_int_ranges",
+            # the nat-hole message codec (encrypt ∘ frame) and the message transporter (Model/Lane, Props/C17Lane)
+            "Frp.C17.nh_roundtrip", "Frp.C17.nh_decode_sound",
+            "Frp.C17.laneInv_step", "Frp.C17.lane_inv", "Frp.C17.dispatch_to_registered",
+            "Frp.C17.dispatch_unregistered_dropped", "Frp.C17.never_to_another",
         ],
+        "extra_targets": ["Frp.Props.C17Dispatch", "Frp.Props.C17Lane"],
         "engines": [
             {"name": "codec", "quick_n": 20000, "thorough_n": 80000, "thorough_seeds": 5, "search_n": 6000, "search_seeds": 3,
              "nontrivial": codec_nontrivial, "result_class": codec_class},
@@ -51,17 +86,43 @@ PROP = {
                 "counting reader (error class, bytes consumed, body allocation); gold = 18 pinned frames of the released "
                 "protocol read and re-written by the real code; later = framing errors sent by a logged-in second client "
                 "on its control stream (must end that session only); first = bytes sent as the first "
-                "message to a live frps while an established session is pinged. Non-trivial = every case except a "
+                "message to a live frps while an established session is pinged; disp = a fresh REAL msg.Dispatcher "
+                "(handler table and default handler generated) on a net.Pipe fed a generated stream — accepted frames of all "
+                "18 types, then one piece of a malformed class (one wrong-typed / out-of-range member per the struct's "
+                "schema at any nesting level, also under a case-folded or duplicated name; top-level non-object; not a "
+                "JSON text; unknown type; negative / oversized / short / long length; cut-off frame), then more frames — in "
+                "writes of 1…64 bytes: which handler got which message (reflection dump) at which byte offset, whether "
+                "Done() is closed, what the send loop wrote; the JSON trees of the bodies come from encoding/json's "
+                "token stream (trusted), the verdict on them from the model; sess = the same stream classes on an "
+                "established control connection of a live frps (replies before / after the malformed frame, closed?, "
+                "other session alive?); nh = the nat-hole message codec (pkg/nathole EncodeMessage / DecodeMessageInto): generated "
+                "values of all types, right key / wrong key / one bit of the data flipped / data cut off, the outcome "
+                "predicted from the bytes the data decrypts to (standard-library AES-CFB, trusted) and the round trip "
+                "demanded for the right key; lane = the real transport.MessageTransporter under generated histories of "
+                "Do / Dispatch / cancel (which Do call received which message). Non-trivial = every case except a "
                 "plain empty-object frame; distinct = distinct (op line, result) pairs",
         "trusted": COMMON_TRUST + [
-            "encoding/json (which bodies parse into which struct, how values print) is trusted: the JSON verdict "
-            "of each run is taken from the implementation as an oracle bit; only the literal `null` is modelled. "
+            "encoding/json's TEXT level (which byte strings are a JSON text, which tree they denote, how values print) "
+            "is trusted. For rd/into/rt the JSON verdict of each run is taken from the implementation as an oracle "
+            "bit (only the literal `null` is modelled); for disp/sess the verdict is the model's: member lookup (exact, "
+            "then ASCII case-folded), JSON type per field kind, integer syntax and range, element types, nested "
+            "structs (Frp/Model/Dispatcher.lean `fits2`). "
             "The object level (which members with which values; Frp/Model/MsgObj.lean) IS modelled and tied; JSON text "
             "syntax (escaping, number text, member order) and net.IP text form stay trusted",
             "model Frp/Model/Frame.lean written by hand from golib@v0.5.1 msg/json {process,pack,msg}.go; tied by the codec engine",
             "translator /verif/translate (go/ast) for Frp/Gen/MsgSchema.lean; golden table Frp/Props/C17Golden.lean pinned by hand",
         ],
         "assumptions": [
+            "nat-hole codec: AES-128-CFB (golib crypto.Encode/Decode) is trusted and carries no authentication: a "
+            "tampered datagram is an error only when the decrypted bytes are not a well-formed frame that fits the "
+            "receiver's struct (that is what is checked), wrong key ⇒ error holds with overwhelming probability only; "
+            "transporter: a second Do under the same type and lane takes the registry entry over (Go map semantics, "
+            "mirrored; frp's lane keys are random transaction ids)",
+            "disp/sess: member names with non-ASCII bytes (Unicode case folding), the number `-0` and IPv6 address texts "
+            "are outside the modelled domain and skipped; the VALUE a handler receives is compared only for bodies whose "
+            "member names are exact and strictly increasing at every level (else only handler, struct and offset); "
+            "handlers are synchronous (msg.AsyncHandler gives no order); sess: the well-formed part consists of Ping "
+            "and of types the server's dispatcher has no handler for",
             "round trip is claimed for messages whose JSON body is at most 10240 bytes: WriteMsg does not enforce the "
             "bound, ReadMsg does (oversize values are generated and must come back as ErrMaxMsgLength)",
             "equality after round trip is modulo: empty map/slice == nil (omitempty), 4-byte IP == 16-byte form; "
@@ -75,10 +136,10 @@ PROP = {
 META = {
         "engine": "lean+translate(MsgSchema)+harness(codec)",
         "design_ref": "DESIGN.md §6 C17",
-        "technique": "Lean 4 proofs about the framing model for all byte strings (exact characterisation of accepted "
+        "technique": "Lean 4 proofs about the framing model and the dispatcher transition system for all byte strings / streams (exact characterisation of accepted "
                      "inputs, bounds, error cases), kernel evaluation of the message table regenerated from "
                      "pkg/msg/msg.go against a pinned golden table, differential correspondence with the real "
-                     "msg.WriteMsg/ReadMsg/ReadMsgInto and a live frps",
+                     "msg.WriteMsg/ReadMsg/ReadMsgInto, the real msg.Dispatcher over a pipe and a live frps",
         "text": "Proof: the modelled decoder returns ok(t, body, rest) exactly when the input is type byte t (registered) "
                 "+ 8-byte big-endian length + body + rest with |body| <= max; it then consumed exactly 9+|body| bytes and "
                 "allocated |body|; in every case the body allocation is <= max and nothing beyond the input is consumed; "
@@ -86,7 +147,16 @@ META = {
                 "(one theorem each); the 8-byte length field is a bijection on uint64. The registry regenerated from the "
                 "source has 18 entries, distinct bytes, distinct structs, is a bijection, JSON names are distinct per "
                 "struct, and the whole table (type bytes, JSON names, Go types, omitempty) equals the golden table of "
-                "the released protocol. The model is tied to the code by thousands of generated values/byte strings per "
+                "the released protocol. Session level (msg.Dispatcher as a transition system): for every handler "
+                "table, every byte stream and every verdict of the trusted JSON text level, the handlers are called for "
+                "exactly the accepted frames before the first rejected one, in order, each by the handler of its type "
+                "(else the default handler); a frame rejected for ANY reason - unknown type, bad length, not a JSON text, "
+                "null, top-level non-object, or ONE member at any nesting level whose JSON type / integer range does not "
+                "fit its field - closes Done with nothing dispatched from it or after it; every stream decomposes that "
+                "way; the result does not depend on how the bytes are cut into writes; the send side is FIFO. The nat-hole codec returns the message for every cipher that decrypts what it encrypted "
+                "and otherwise only what the decrypted bytes frame; a message given to the transporter reaches exactly the "
+                "waiting Do call registered for its type and lane key, at most one per call, else it is dropped. "
+                "The model is tied to the code by thousands of generated values/byte strings/streams per "
                 "run with the Lean predicate evaluated on the implementation's own results.",
         "note": "Finding C17-null-body (fixed by 5c99d8a): a frame whose JSON body is the literal null made ReadMsg "
                 "return (nil, nil) - neither a message nor an error; pkg/msg/ctl.go now turns that into an error. The model "
